@@ -133,6 +133,7 @@ class Script:
         tag = "%s_%d" % (c, st["n"])
         if what == "custom":
             # answered by pgcat itself (handle_custom_protocol), before the gate: no checkout, no wait
+            self._mi(c)
             sql = ["SET SERVER ROLE TO 'primary'", "SHOW SERVER ROLE", "SET SHARD TO '0'", "SHOW SHARD"][st["n"] % 4]
             rec = {"tag": tag, "c": c, "kind": kind, "what": what, "needs_checkout": False, "paused_at_send": self.paused[kind],
                    "expect_held": False, "pos": None, "pos_after": None, "released_by": None, "nopool": False, "custom": True}
@@ -141,11 +142,16 @@ class Script:
             self.stmts.append(rec)
             return rec
         needs = not st["server"]
-        sql = {"plain": "SELECT '%s'" % tag, "ext": "SELECT '%s'" % tag, "begin": "BEGIN /* %s */" % tag,
+        sql = {"plain": "SELECT '%s'" % tag, "ext": "SELECT '%s'" % tag, "extflush": "SELECT '%s'" % tag, "begin": "BEGIN /* %s */" % tag,
                "in": "SELECT '%s'" % tag, "commit": "COMMIT /* %s */" % tag}[what]
-        if what == "ext":
+        msgs2 = None
+        if what in ("ext", "extflush"):
             msgs = [{"t": "P", "name": "", "sql": sql, "types": []}, {"t": "B", "portal": "", "name": "", "fmts": [], "params": [], "rfmts": []},
                     {"t": "E", "portal": "", "max": 0}, {"t": "S"}]
+            if what == "extflush":
+                # Parse, Bind, Execute, Flush in one write, the Sync a little later (pipelining clients): the Flush is the
+                # first message that reaches the checkout, and it is neither a query nor a Sync
+                msgs, msgs2 = msgs[:3] + [{"t": "H"}], [{"t": "S"}]
         else:
             msgs = [{"t": "Q", "sql": sql}]
         rec = {"tag": tag, "c": c, "kind": kind, "what": what, "needs_checkout": needs, "paused_at_send": self.paused[kind],
@@ -164,6 +170,8 @@ class Script:
             self._ev(kind, "CReg %d" % m); self._ev(kind, "CLoad %d" % m)
             rec["pos"] = self._ev(kind, "CDecide %d" % m)
         self.steps.append({"op": "send", "c": c, "msgs": msgs})
+        if msgs2:
+            self.steps += [{"op": "sleep", "ms": 40}, {"op": "send", "c": c, "msgs": msgs2}]
         if rec["expect_held"]:
             self.steps.append({"op": "recv", "c": c, "until": "Z", "timeout_ms": WINDOW_MS, "label": tag + ":window"})
             st["held"] = len(self.stmts)
@@ -184,7 +192,7 @@ class Script:
             return
         if what == "begin":
             st["server"] = st["txn"] = True
-        elif what in ("plain", "ext") and not st["txn"]:
+        elif what in ("plain", "ext", "extflush") and not st["txn"]:
             if rec["pos"] is not None:
                 self._ev(kind, "CDone %d" % self._mi(c))
         elif what == "commit":
@@ -392,6 +400,9 @@ def build_all(rng, nrandom, mutant=None):
                 s.pipeline("c0", 2 if ext else 3, ext, scope)
                 s.stmt("c1", "custom"); s.stmt("c1", "plain")
                 s.admin_cmd("RESUME", scope); s.stmt("c0", "plain")
+        s = S("Parse, Bind, Execute, Flush in one write and the Sync later: held as a whole while paused [%s]" % kind)
+        s.connect("c0", kind); s.connect("c1", kind); s.stmt("c1", "extflush"); s.admin_cmd("PAUSE", kind)
+        s.stmt("c0", "extflush"); s.stmt("c1", "extflush"); s.admin_cmd("RESUME", kind); s.stmt("c0", "extflush")
         s = S("custom commands are answered at once while the pool is paused, the next statement is held [%s]" % kind)
         s.connect("c0", kind); s.connect("c1", kind); s.stmt("c1", "begin"); s.admin_cmd("PAUSE", kind)
         s.stmt("c0", "custom"); s.stmt("c0", "custom"); s.stmt("c1", "custom"); s.stmt("c0", "custom"); s.stmt("c0", "plain"); s.stmt("c1", "commit")
@@ -426,7 +437,7 @@ def random_script(rng, i, mutant=None):
             if st["txn"]:
                 what = rng.choice(["in", "commit", "commit"])
             else:
-                what = rng.choice(["plain", "plain", "ext", "begin"])
+                what = rng.choice(["plain", "plain", "ext", "begin", "extflush", "custom"])
             if (not st["server"]) and s.paused[st["kind"]]:
                 if windows >= 3:
                     continue
@@ -559,6 +570,8 @@ def compare(meta, obs, codes, index_of):
             if refused != told:
                 diffs.append("%s: model %s the lookup of the session's pool, observed %s" % (s["tag"], "refuses" if refused else "accepts", "the error reply" if told else "no error reply"))
             continue
+        if s.get("custom"):
+            continue                      # no model step: judged by the monitor (w-v) only
         tr = codes.get(s["kind"], [])
         m = index_of[s["kind"]][s["c"]]
         observed_held = (o["backend_seq"] is None or not o["answered_in_window"]) and o["window"] == "timeout"
